@@ -37,8 +37,15 @@ CHECKS = {
          "children's outputs - a concat! stage the append of its members (C06_prog_concat), for_each exactly its child's output "
          "(C06_prog_sink), from_iter the defined prefix of its iterator. The net semantics is tied to the crate by running random operator "
          "trees on both each run; the real crate is also compared with the lazy interpreter on random pipelines (depth 0-5, incl. "
-         "multi-member concat!, map+flatten). Not proved: liveness (a pull-driven pipeline runs to exhaustion), the next() count of the "
-         "composed models, map-then-flatten stages inside programs.",
+         "multi-member concat!, map+flatten, one source value subscribed several times, counts near usize::MAX). (3) LIVENESS for linear "
+         "pipelines of map/filter/scan/take/skip (take counts >= 1) over any finite input, as nets of the component models "
+         "(Liveness.v, C06_pipeline_completes): applying for_each makes the net run by itself to rest within an explicit bound of steps "
+         "(every step is a call delivered or returned; demand is never invented), at rest for_each has received the end (demand is never "
+         "lost: counting argument over Pulls/data/greetings per link, status coupling of every stage at rest), and f was called on the list "
+         "function of the WHOLE input; the extracted runner of exactly these nets (PipeNet.net_pipe_run, proved to return sem p xs) is run "
+         "against the crate on every generated pipeline of unary stages (values, next() count, completion). Not proved: liveness of "
+         "pipelines with concat!/flatten stages or unbounded inputs cut by a take (compared with the lazy interpreter only), the next() "
+         "count of the composed models.",
          "Coq assume-guarantee composition theorem over the component models + list-function/lazy-interpreter equivalence + differential tests"),
  "C07": ("proof", "Theorems: at every control point data_out = map f / filter c / scan_list r seed / firstn n / skipn n of data_in, for all "
          "parameters and all environments (push and pull are the same relation); sink and upstream end together (paired); take completes "
@@ -69,7 +76,12 @@ CHECKS = {
  "C14": ("proof", "Pull regime (pullable upstreams, one Pull per message received): proved for all eight components (from_iter, map, filter, "
          "scan, take, skip, concat! of any n, flatten) that OverPull/OverData/Unanswered never fire, with the conservation laws each proof "
          "rests on (owed + ndata = npull, credit + owed = 1; flatten: exactly one token of demand, with the sink, on the outer or on the "
-         "stored inner). Compositions of these operators ('programs' in the quantifier) are validated on the crate (closed operator trees "
+         "stored inner). Outside the pull regime too (Flow_*.v, C14_*_flow): in EVERY conformant environment map/filter/scan/skip satisfy "
+         "Pulls sent up + data delivered = Pulls received + data received at every control point (take: <=, with = at rest while live), "
+         "for_each sends exactly one Pull per greeting or datum, and from_iter at rest has served every Pull by one datum when its sink "
+         "sends one Pull per message - these are the facts the composed liveness theorem (C06_pipeline_completes) is built from, where the "
+         "discipline 'one Pull per message towards from_iter' is itself PROVED of every pipeline of map/filter/scan/take/skip "
+         "(Liveness.src_one_pull). Other compositions ('programs' in the quantifier) are validated on the crate (closed operator trees "
          "under the sink-side monitor), not proved; take under concat!/flatten is outside the premise (its output gives Data AND the end for "
          "one Pull) and is not generated.", PROOF_TECH),
  "C15": ("proof", "Theorems for every iterator (not assumed fused): no violation incl. no nested delivery, the loop-frame shape (at most one "
